@@ -594,7 +594,7 @@ func c14RaceReports(b *core.B) {
 				fr := reRaceFrame.FindAllStringSubmatch(sec, -1)
 				top := "?"
 				for _, m := range fr {
-					if strings.HasPrefix(m[2], "/repo/") || strings.Contains(m[1], "gobuffalo/plush") {
+					if strings.HasPrefix(m[2], core.RepoDir()+"/") || strings.Contains(m[1], "gobuffalo/plush") {
 						top = strings.TrimPrefix(m[1], "github.com/gobuffalo/plush/v5")
 						top = strings.TrimPrefix(strings.TrimPrefix(top, "/"), ".")
 						inPlush = true
